@@ -381,4 +381,8 @@ def table_check(c, module, cfg, cmd, workers=8, tlc_timeout=900, harness_timeout
     finally:
         cleanup(r)
     absorb(c, res)
+    if not res.get('traces'):
+        # table-style binding: every exported row is one implementation test derived from the specification
+        c.traces += res.get('distinct', 0)
+        c.extra['table_rows_executed'] = res.get('distinct', 0)
     return res
